@@ -9,7 +9,10 @@ the model's own computation of needs / verdicts, decoded back to names):
   `grid <Scheme>`           → `size=<n>|axes=<axis>:<l1>,<l2>;…`
   `point <Scheme> <index>`  → `rejected`, `nobody <entry>`, or
       `labels:<axis>=<label>,…|arr:<name>:<props>|…|eq:<Class>:<dest>:<srcs>:<needsD>:<needsS>:<implicit>|…`
-      `|st:<Class>:<array>:<needs>:<implicit>|…|accepted:<T|F>|complete:<T|F>`
+      `|st:<Class>:<array>:<needs>:<implicit>:<index uses>|…|accepted:<T|F>|complete:<T|F>|typesok:<T|F>`
+    with `ty:<array>:int=…;uint=…;long=…;float=…;strides=<name>*<n>,…` after the
+    `arr:` parts (C types of the properties, everything not listed is double) and
+    `:<index uses d>:<index uses s>` at the end of every `eq:` part
     where `<srcs>` is `-` for `sources=None`, else `+`-separated array names;
     name lists are comma separated in `propNames` order, `_` when empty;
     `needsD/needsS` are what the model computes for
@@ -36,15 +39,21 @@ def showEq (b : Body) (e : EqInst) : String :=
     let srcs := match e.sources with
       | none => "-"
       | some l => if l.isEmpty then "_" else "+".intercalate (l.map (arrName b))
-    s!"eq:{k.name}:{arrName b e.dest}:{srcs}:{nameList (needsD preTable k)}:{nameList (needsS preTable k)}:{nameList k.implicitD}"
+    s!"eq:{k.name}:{arrName b e.dest}:{srcs}:{nameList (needsD preTable k)}:{nameList (needsS preTable k)}:{nameList k.implicitD}:{nameList k.idxD}:{nameList k.idxS}"
 
 def showStepper (b : Body) (st : Nat × Nat) : String :=
   match stepKinds[st.1]? with
   | none => "st:!nokind"
-  | some k => s!"st:{k.name}:{arrName b st.2}:{nameList (stepNeeds k)}:{nameList k.implicitD}"
+  | some k => s!"st:{k.name}:{arrName b st.2}:{nameList (stepNeeds k)}:{nameList k.implicitD}:{nameList k.idx}"
 
 def showArr (a : Nat × Mask) : String :=
   s!"arr:{arrayNames.getD a.1 "?"}:{nameList a.2}"
+
+def showStride (s : Nat × Nat) : String := s!"{propNames.getD s.1 "?"}*{s.2}"
+
+/-- `ty:<array>:int=…;uint=…;long=…;float=…;strides=<name>*<n>,…` (the rest is double) -/
+def showTypes (a : (Nat × Mask) × ArrTypes) : String :=
+  s!"ty:{arrayNames.getD a.1.1 "?"}:int={nameList a.2.int};uint={nameList a.2.uint};long={nameList a.2.long};float={nameList a.2.float};strides={showList showStride a.2.strides}"
 
 def showPoint (g : SchemeGrid) (i : Nat) : String :=
   match g.bodyOf[i]? with
@@ -55,10 +64,12 @@ def showPoint (g : SchemeGrid) (i : Nat) : String :=
     | none => s!"nobody {c + 1}"
     | some b =>
       let labels := ",".intercalate ((labelsOf g i).map (fun p => p.1 ++ "=" ++ p.2))
-      let parts := [s!"labels:{labels}"] ++ b.arrays.map showArr ++ b.eqs.map (showEq b) ++
+      let parts := [s!"labels:{labels}"] ++ b.arrays.map showArr ++
+        (b.arrays.zip b.types).map showTypes ++ b.eqs.map (showEq b) ++
         b.steppers.map (showStepper b) ++
         [s!"accepted:{tf (acceptsBody preTable eqKinds stepKinds b)}",
-         s!"complete:{tf (checkBody preTable eqKinds stepKinds b)}"]
+         s!"complete:{tf (checkBody preTable eqKinds stepKinds b)}",
+         s!"typesok:{tf (typesOk eqKinds stepKinds b)}"]
       "|".intercalate parts
 
 def findGrid (n : String) : Option SchemeGrid := schemeTable.find? (fun g => g.name == n)
